@@ -368,12 +368,23 @@ class DisjunctionMaxMatcher(UnionMatcher):
             return self
 
     def score(self):
-        if not self.a.is_active():
-            return self.b.score()
-        elif not self.b.is_active():
-            return self.a.score()
+        a = self.a
+        b = self.b
+
+        if not a.is_active():
+            return b.score()
+        if not b.is_active():
+            return a.score()
+
+        # Only a sub-matcher that is on the current document contributes
+        id_a = a.id()
+        id_b = b.id()
+        if id_a < id_b:
+            return a.score()
+        elif id_b < id_a:
+            return b.score()
         else:
-            return max(self.a.score(), self.b.score())
+            return max(a.score(), b.score())
 
     def max_quality(self):
         return max(self.a.max_quality(), self.b.max_quality())
